@@ -8,10 +8,10 @@ from .common import Driver, Timer, Verdict, lean_gate, write_evidence, seed, TRU
 from . import check_world as CW
 
 MODULES = {
-    "C02": ["NSG.Properties.C02", "NSG.Properties.SystemInv"],
+    "C02": ["NSG.Properties.C02", "NSG.Properties.SystemInv", "NSG.Properties.SystemMono"],
     "C03": ["NSG.Properties.C03", "NSG.Properties.C03Loader", "NSG.Properties.SystemInv"],
     "C08": ["NSG.Properties.C08", "NSG.Properties.SystemInv"],
-    "C11": ["NSG.Properties.C11", "NSG.Properties.SystemInv"],
+    "C11": ["NSG.Properties.C11", "NSG.Properties.SystemInv", "NSG.Properties.SystemMono"],
     "C12": ["NSG.Properties.C12", "NSG.Properties.C12Coord", "NSG.Properties.SystemInv"],
 }
 RULES = {
